@@ -107,6 +107,11 @@ class Analyzer:
                 env.setdefault(node.func.value.id, []).extend(node.args)
             elif isinstance(node, ast.NamedExpr):
                 env.setdefault(node.target.id, []).append(node.value)
+            elif isinstance(node, (ast.For, ast.AsyncFor, ast.comprehension)):
+                # a loop variable stands for anything inside the iterable (over-approximation, flow-insensitive)
+                for nm in ast.walk(node.target):
+                    if isinstance(nm, ast.Name):
+                        env.setdefault(nm.id, []).append(node.iter)
         return env
 
     def ev(self, e, fn, env, depth=0):
